@@ -116,6 +116,8 @@ def run_driver(binary, prop, config, tier, known_ids, extra_args=(), threads=Non
         e.update(env)
     r = subprocess.run(cmd, capture_output=True, text=True, env=e)
     sys.stderr.write(r.stderr[-4000:])
+    if r.returncode in CRASH_SIGNALS:
+        return crash_triage(binary, cmd, out, config, e, r.returncode)
     if r.returncode not in (0, 1) or not os.path.exists(out):
         raise EngineError(f'driver {os.path.basename(binary)} failed with exit {r.returncode}: {r.stderr[-2000:]}')
     res = json.load(open(out))
@@ -124,6 +126,51 @@ def run_driver(binary, prop, config, tier, known_ids, extra_args=(), threads=Non
     res['_binary'] = binary
     res['_stderr'] = r.stderr
     return res
+
+
+import signal as _signal
+CRASH_SIGNALS = {-int(x): x.name for x in (_signal.SIGSEGV, _signal.SIGBUS, _signal.SIGFPE, _signal.SIGILL, _signal.SIGABRT)}
+
+
+def crash_triage(binary, cmd, out, config, env, rc):
+    """the driver process died on a fatal signal while evaluating GLM code: run every operation in a process of its own and report the ones
+    that die as violations (memory corruption / a trap inside the library is not a harness condition: the unchanged tree never crashes)"""
+    names = [n for n in subprocess.run([binary, '--list'], capture_output=True, text=True).stdout.split('\n') if n]
+    base = [c for c in cmd]
+    oi = base.index('--out'); 
+    def one(k_name):
+        k, name = k_name
+        o = f'{out}.op{k}'
+        c = list(base); c[oi + 1] = o; c += ['--op-exact', name]
+        if os.path.exists(o): os.remove(o)
+        r = subprocess.run(c, capture_output=True, text=True, env=env)
+        res = json.load(open(o)) if r.returncode in (0, 1) and os.path.exists(o) else None
+        if os.path.exists(o): os.remove(o)
+        return name, r.returncode, res
+    with ThreadPoolExecutor(max_workers=8) as ex:
+        results = list(ex.map(one, enumerate(names)))
+    merged = {'config': config, 'evaluations': 0, 'nontrivial': 0, 'complete': False, 'ops': [], 'violations': [], 'known': [], 'assumptions': [], 'extra': {}, '_binary': binary, '_stderr': ''}
+    crashed = 0
+    for name, code, res in results:
+        if code in CRASH_SIGNALS:
+            crashed += 1
+            merged['violations'].append({'op': name, 'vclass': 99, 'kf': -1, 'count': 1, 'input_bits': [], 'got_bits': [], 'want_bits': [], 'domain': '', 'index': 0,
+                                         'msg': f'the driver process was killed by {CRASH_SIGNALS[code]} while this operation was being evaluated on the real code (crash inside or caused by the library: memory corruption, trap)',
+                                         'detail': {'kind': 'crash', 'signal': CRASH_SIGNALS[code]}})
+        elif res is not None:
+            if res.get('engine_error'):
+                raise EngineError(f'driver {os.path.basename(binary)}: engine error in operation {name} during crash triage')
+            for k in ('evaluations', 'nontrivial'): merged[k] += res[k]
+            merged['ops'] += res['ops']; merged['violations'] += res['violations']; merged['known'] += res['known']
+            for a in res.get('assumptions', []):
+                if a not in merged['assumptions']: merged['assumptions'].append(a)
+            merged['extra'].update(res.get('extra', {}))
+        else:
+            raise EngineError(f'driver {os.path.basename(binary)}: operation {name} failed with exit {code} during crash triage')
+    if not crashed:
+        raise EngineError(f'driver {os.path.basename(binary)} died with {CRASH_SIGNALS[rc]} but no single operation reproduces it')
+    sys.stderr.write(f'[crash triage] {os.path.basename(binary)}: {crashed} of {len(names)} operations crash\n')
+    return merged
 
 
 def clear_replays(prop):
@@ -212,6 +259,12 @@ def replay(prop, path, src_default, known_ids):
     rec = json.load(open(path))
     src = rec.get('driver') or src_default
     import props as _p; binary = build(src, rec.get('config', 'default'), libs=tuple(_p.PROPS[prop].get('libs', [])))
+    if (rec.get('detail') or {}).get('kind') == 'crash':
+        r = subprocess.run([binary, '--tier', rec.get('tier', 'quick'), '--op-exact', rec['op'], '--out', os.path.join(BUILD, 'out', 'replay_crash.json')], capture_output=True, text=True)
+        print(f"REPLAY op={rec['op']} -> exit {r.returncode} ({CRASH_SIGNALS.get(r.returncode, 'no crash')})")
+        if r.returncode in CRASH_SIGNALS or r.returncode == 1:      # the crash itself depends on the memory layout of the process; the operation failing its oracle is the same violation
+            print(f'VIOLATION property={prop} replay={os.path.abspath(path)}'); return 1
+        return 0 if r.returncode == 0 else r.returncode
     words = ','.join(rec['input_bits'])
     cmd = [binary, '--tier', rec.get('tier', 'quick'), '--replay-op', rec['op'], '--replay-words', words]   # the tier selects the value lattices of drivers whose lattices grow in the thorough tier
     if known_ids:
